@@ -171,6 +171,7 @@ func zzC05LowestMerge(Nr, Na int) {
 	zzvAssert("span<=N", emptyR && emptyA || s.maxIndex-s.minIndex+1 <= Nr)
 	zzvAssert("count-conserved", s.count == preS.count+preO.count)
 	zzvAssert("argument-unchanged", zzvAnd(zzSameDense(&o.DenseStore, &preO), zzvAnd(o.maxNumBins == Na, len(o.bins) == La)))
+	zzvAssert("receiver-and-argument-share-no-memory", zzvDisjoint(s, o))
 	p := zzvMInt("probe", -(1 << 35), 1<<35)
 	// specification: fold_N(alpha_s + alpha_o), edge from the joint maximum
 	var spec float64
@@ -230,6 +231,7 @@ func zzC05HighestMerge(Nr, Na int) {
 	zzvAssert("span<=N", emptyR && emptyA || s.maxIndex-s.minIndex+1 <= Nr)
 	zzvAssert("count-conserved", s.count == preS.count+preO.count)
 	zzvAssert("argument-unchanged", zzvAnd(zzSameDense(&o.DenseStore, &preO), zzvAnd(o.maxNumBins == Na, len(o.bins) == La)))
+	zzvAssert("receiver-and-argument-share-no-memory", zzvDisjoint(s, o))
 	p := zzvMInt("probe", -(1 << 35), 1<<35)
 	var spec float64
 	switch {
